@@ -10,8 +10,8 @@
    NOT proved: the degenerate directions (q perpendicular to an edge or to a chord: limits of the generic case), planes other
    than xy (rigid-motion covariance), and the polyhedron/sphere analogues; those are decided by correspondence with
    direct quadrature of the defining integral. *)
-From Coq Require Import Reals List.
-Require Import Cox.Num.Ops Cox.Geo.Vec Cox.Model.FormFactor Cox.Thm.FormFactorThm Cox.Thm.FormFactorIntegral Cox.Thm.TriangleFF.
+From Coq Require Import Reals List Lra.
+Require Import Cox.Num.Ops Cox.Geo.Vec Cox.Model.FormFactor Cox.Thm.FormFactorThm Cox.Thm.FormFactorIntegral Cox.Thm.TriangleFF Cox.Thm.PolygonFF.
 Local Open Scope R_scope.
 
 (* F(-q) is the complex conjugate of F(q) *)
@@ -89,3 +89,18 @@ Theorem C12_triangle_is_fourier_integral :
              (fun u => @Coquelicot.RInt.RInt Coquelicot.Hierarchy.R_CompleteNormedModule (fun v => sin (A + u * be + v * ga)) 0 (1 - u)) 0 1)).
 Proof. exact triangle_ff_is_fourier. Qed.
 Print Assumptions C12_triangle_is_fourier_integral.
+
+(* POLYGONS OF ANY SIZE (convex or not, either orientation) in the xy-plane: the code's edge sum is the sum over the fan
+   triangles (v0, v_i, v_i+1) of the Fourier integrals of their signed indicators, for every in-plane q generic for each
+   fan triangle.  (That the signed fan sum of indicators is the indicator of a simple polygon is the modelled step shared
+   with C04 and C06.) *)
+Theorem C12_polygon_is_fan_of_fourier_integrals :
+  forall (q a b : P2) (l : list P2), generic_fan q a b l ->
+    polygon_ff (0, 0, 1) (emb q) (map emb (a :: b :: l)) = fan_fourier q a b l.
+Proof. exact polygon_ff_is_fan_of_fourier_integrals. Qed.
+Print Assumptions C12_polygon_is_fan_of_fourier_integrals.
+
+(* the hypothesis is satisfiable: an L-shaped hexagon and q = (1, 1/3) *)
+Example C12_generic_example :
+  generic_fan (1, 1 / 3) (0, 0) (2, 0) ((2, 1) :: (1, 1) :: (1, 2) :: (0, 2) :: nil).
+Proof. cbn [generic_fan]. unfold generic_tri. cbn [fst snd]. repeat split; lra. Qed.
